@@ -95,6 +95,11 @@ class BaseElementLocator
 
     void move_elements_forward(std::size_t from, std::size_t to, std::byte* memory_begin) noexcept
     {
+        if (from == element_addresses_.size())
+        {
+            // nothing behind the erased elements; the slot at index size() is not a valid address
+            return;
+        }
         const auto diff = detail::move_elements(from, to, memory_begin, *this);
         std::transform(element_addresses_.begin() + from, element_addresses_.end(), element_addresses_.begin() + to,
                        [&](auto address)
